@@ -1317,6 +1317,665 @@ theorem divRemInPlaceDCFrontier_spec (W : Nat) (lhs rhs : List Nat) (hm : rhs.le
   have : (q0 + c * 2 ^ (W * (lhs.length - rhs.length))) = Q := by rw [← h1]; ring
   rw [this, ← h2]; ring
 
+-- ------------------------------------------------------------------ Burnikel–Ziegler
+
+/-- contract of an in-place division of `lhs` by the normalised `rhs`:
+    `out = [lhs % rhs, (lhs / rhs) mod B^(m−n)]`, `c` = the quotient's carry (≤ 1) -/
+def InPlaceOk (W : Nat) (lhs rhs : List Nat) (res : Except PanicKind (List Nat × Nat)) : Prop :=
+  ∃ out c, res = .ok (out, c) ∧ out.length = lhs.length ∧ IsWords W out ∧ c ≤ 1 ∧
+    val W (out.take rhs.length) < val W rhs ∧
+    (val W (out.drop rhs.length) + c * 2 ^ (W * (lhs.length - rhs.length))) * val W rhs
+      + val W (out.take rhs.length) = val W lhs
+
+theorem simple_inPlaceOk (W : Nat) (hW : 1 ≤ W) (lhs rhs : List Nat) (hn : 2 ≤ rhs.length)
+    (hm : rhs.length ≤ lhs.length) (hl : IsWords W lhs) (hr : IsWords W rhs)
+    (hnorm : 2 ^ (W * rhs.length) ≤ 2 * val W rhs) :
+    InPlaceOk W lhs rhs (simpleDivRemInPlace W lhs rhs (highestDword W rhs)) :=
+  simpleDivRemInPlace_spec W hW lhs rhs hn hm hl hr hnorm
+
+/-- if the top `n` words of the dividend are below the divisor there is no quotient carry -/
+theorem inplace_carry_zero (W : Nat) (lhs rhs out : List Nat) (c : Nat) (hm : rhs.length ≤ lhs.length)
+    (hl : IsWords W lhs)
+    (htop : val W (lhs.drop (lhs.length - rhs.length)) < val W rhs)
+    (heq : (val W (out.drop rhs.length) + c * 2 ^ (W * (lhs.length - rhs.length))) * val W rhs
+      + val W (out.take rhs.length) = val W lhs) : c = 0 := by
+  have hv := take_drop_val W lhs (lhs.length - rhs.length) (by omega)
+  have hlow : val W (lhs.take (lhs.length - rhs.length)) < 2 ^ (W * (lhs.length - rhs.length)) := by
+    have := val_lt W _ (hl.take (lhs.length - rhs.length))
+    rwa [List.length_take, Nat.min_eq_left (by omega)] at this
+  rcases Nat.eq_zero_or_pos c with h | h
+  · exact h
+  · exfalso
+    generalize val W (lhs.take (lhs.length - rhs.length)) = L at *
+    generalize val W (lhs.drop (lhs.length - rhs.length)) = T at *
+    generalize 2 ^ (W * (lhs.length - rhs.length)) = Pk at *
+    generalize val W (out.drop rhs.length) = Q at *
+    generalize val W (out.take rhs.length) = R at *
+    have h1 : Pk * (T + 1) ≤ Pk * val W rhs := Nat.mul_le_mul_left _ htop
+    have h2 : 1 * Pk * val W rhs ≤ c * Pk * val W rhs :=
+      Nat.mul_le_mul_right _ (Nat.mul_le_mul_right _ h)
+    nlinarith [Nat.zero_le (Q * val W rhs)]
+
+/-- the top `m` words of a normalised divisor are a normalised divisor -/
+theorem norm_drop (W : Nat) (hW : 1 ≤ W) (rhs : List Nat) (k : Nat) (hk : k < rhs.length)
+    (hr : IsWords W rhs) (hnorm : 2 ^ (W * rhs.length) ≤ 2 * val W rhs) :
+    2 ^ (W * (rhs.drop k).length) ≤ 2 * val W (rhs.drop k) := by
+  have hv := take_drop_val W rhs k (by omega)
+  have hlow : val W (rhs.take k) < 2 ^ (W * k) := by
+    have := val_lt W _ (hr.take k)
+    rwa [List.length_take, Nat.min_eq_left (by omega)] at this
+  have hP : 2 ^ (W * rhs.length) = 2 ^ (W * k) * 2 ^ (W * (rhs.length - k)) := by
+    rw [← Nat.pow_add]; congr 1
+    have : rhs.length = k + (rhs.length - k) := by omega
+    conv => lhs; rw [this]
+    ring
+  have heven : 2 ^ (W * (rhs.length - k)) = 2 * 2 ^ (W * (rhs.length - k) - 1) := by
+    rw [← Nat.pow_succ']; congr 1
+    have : 1 ≤ W * (rhs.length - k) := Nat.mul_pos (by omega) (by omega)
+    omega
+  rw [List.length_drop]
+  rw [hv, hP] at hnorm
+  by_contra hcon
+  have hlt : 2 * val W (rhs.drop k) + 2 ≤ 2 ^ (W * (rhs.length - k)) := by omega
+  have h1 : 2 ^ (W * k) * (2 * val W (rhs.drop k) + 2) ≤ 2 ^ (W * k) * 2 ^ (W * (rhs.length - k)) :=
+    Nat.mul_le_mul_left _ hlt
+  nlinarith
+
+theorem highestDword_drop (W : Nat) (rhs : List Nat) (k : Nat) (hk : k + 2 ≤ rhs.length) :
+    highestDword W (rhs.drop k) = highestDword W rhs := by
+  simp only [highestDword, List.length_drop, List.getD_eq_getElem?_getD, List.getElem?_drop]
+  have h1 : k + (rhs.length - k - 2) = rhs.length - 2 := by omega
+  have h2 : k + (rhs.length - k - 1) = rhs.length - 1 := by omega
+  rw [h1, h2]
+
+/-- the contract of `add_signed_mul(c, Negative, a, b)` in the form the proof uses -/
+theorem subMulContract_spec (W : Nat) (c a b : List Nat) :
+    let r := subMulContract W c a b
+    r.1.length = c.length ∧ IsWords W r.1 ∧
+    (val W r.1 : Int) + r.2 * ((2 ^ (W * c.length) : Nat) : Int)
+      = (val W c : Int) - (val W a : Int) * (val W b : Int) := by
+  have hP : (0 : Int) < ((2 ^ (W * c.length) : Nat) : Int) := by
+    exact_mod_cast Nat.two_pow_pos (W * c.length)
+  obtain ⟨t1, t2, t3⟩ := toWords_spec W c.length
+    ((((val W c : Int) - (val W a : Int) * (val W b : Int)) % ((2 ^ (W * c.length) : Nat) : Int)).toNat)
+  refine ⟨t1, t2, ?_⟩
+  simp only [subMulContract]
+  rw [t3]
+  have h0 := Int.emod_nonneg ((val W c : Int) - (val W a : Int) * (val W b : Int)) (Int.ne_of_gt hP)
+  have h1 := Int.emod_lt_of_pos ((val W c : Int) - (val W a : Int) * (val W b : Int)) hP
+  have h2 := Int.emod_add_mul_ediv ((val W c : Int) - (val W a : Int) * (val W b : Int))
+    ((2 ^ (W * c.length) : Nat) : Int)
+  generalize ((val W c : Int) - (val W a : Int) * (val W b : Int)) % ((2 ^ (W * c.length) : Nat) : Int) = e at *
+  have hlt : e.toNat < 2 ^ (W * c.length) := by
+    have : ((e.toNat : Nat) : Int) < ((2 ^ (W * c.length) : Nat) : Int) := by
+      rw [Int.toNat_of_nonneg h0]; exact h1
+    exact_mod_cast this
+  rw [Nat.mod_eq_of_lt hlt, Int.toNat_of_nonneg h0]
+  linarith
+
+/-- the correction loop of `small_quotient`: given the invariant `Q'·b + T' = a`, `T' < b` and
+    enough fuel (`T' + f·b ≥ 0`), it ends with `rem_overflow = 0`, an exact remainder, and the
+    quotient decremented accordingly -/
+theorem bzFix_spec (W : Nat) (rhs : List Nat) (hr : IsWords W rhs) (aval : Int) (m : Nat) :
+    ∀ (f : Nat) (rem q : List Nat) (ro qo : Int), rem.length = rhs.length → IsWords W rem →
+      q.length = m → IsWords W q →
+      ((val W q : Int) + qo * ((2 ^ (W * m) : Nat) : Int)) * (val W rhs : Int)
+        + ((val W rem : Int) + ro * ((2 ^ (W * rhs.length) : Nat) : Int)) = aval →
+      (val W rem : Int) + ro * ((2 ^ (W * rhs.length) : Nat) : Int) < (val W rhs : Int) →
+      0 ≤ (val W rem : Int) + ro * ((2 ^ (W * rhs.length) : Nat) : Int) + (f : Int) * (val W rhs : Int) →
+      ∃ rem3 q3 qo3, bzFix W rhs f rem q ro qo = .ok (rem3, q3, 0, qo3) ∧
+        rem3.length = rhs.length ∧ IsWords W rem3 ∧ q3.length = m ∧ IsWords W q3 ∧
+        val W rem3 < val W rhs ∧
+        ((val W q3 : Int) + qo3 * ((2 ^ (W * m) : Nat) : Int)) * (val W rhs : Int) + (val W rem3 : Int)
+          = aval := by
+  have hblt : val W rhs < 2 ^ (W * rhs.length) := val_lt W rhs hr
+  -- when the total is non-negative the loop stops and the overflow word is zero
+  have stop : ∀ (rem q : List Nat) (ro qo : Int), rem.length = rhs.length → IsWords W rem →
+      (val W rem : Int) + ro * ((2 ^ (W * rhs.length) : Nat) : Int) < (val W rhs : Int) →
+      0 ≤ (val W rem : Int) + ro * ((2 ^ (W * rhs.length) : Nat) : Int) → ro = 0 := by
+    intro rem q ro qo hl hw hlt hge
+    have hrl : val W rem < 2 ^ (W * rhs.length) := by
+      have := val_lt W rem hw; rwa [hl] at this
+    have h1 : ((val W rem : Nat) : Int) < ((2 ^ (W * rhs.length) : Nat) : Int) := by exact_mod_cast hrl
+    have h2 : ((val W rhs : Nat) : Int) < ((2 ^ (W * rhs.length) : Nat) : Int) := by exact_mod_cast hblt
+    have h3 : (0 : Int) ≤ ((val W rem : Nat) : Int) := Int.natCast_nonneg _
+    generalize ((2 ^ (W * rhs.length) : Nat) : Int) = P at *
+    rcases Int.lt_trichotomy ro 0 with h | h | h
+    · exfalso
+      have : ro * P ≤ -1 * P := Int.mul_le_mul_of_nonneg_right (by omega) (by omega)
+      omega
+    · exact h
+    · exfalso
+      have : 1 * P ≤ ro * P := Int.mul_le_mul_of_nonneg_right (by omega) (by omega)
+      omega
+  intro f
+  induction f with
+  | zero =>
+    intro rem q ro qo hl hw hql hqw heq hlt hge
+    have hro : ro = 0 := stop rem q ro qo hl hw hlt (by simpa using hge)
+    subst hro
+    refine ⟨rem, q, qo, by simp [bzFix], hl, hw, hql, hqw, ?_, by simpa using heq⟩
+    have : (val W rem : Int) < (val W rhs : Int) := by simpa using hlt
+    exact_mod_cast this
+  | succ f ih =>
+    intro rem q ro qo hl hw hql hqw heq hlt hge
+    by_cases hneg : ro < 0
+    · -- one more correction: rem += rhs, q -= 1
+      have ad := addSameLen_spec W rem rhs 0 hw hr hl (by omega)
+      generalize had : addSameLen W rem rhs 0 = p at ad
+      obtain ⟨rem', c⟩ := p
+      simp only at ad
+      obtain ⟨d1, d2, d3, d4⟩ := ad
+      have so := subOne_spec W q hqw
+      generalize hso : subOne W q = p2 at so
+      obtain ⟨q', bw⟩ := p2
+      simp only at so
+      obtain ⟨o1, o2, o3, o4⟩ := so
+      rw [hl] at d1 d2
+      rw [hql] at o1 o2
+      have e1 : (val W rem' : Int) + (c : Int) * ((2 ^ (W * rhs.length) : Nat) : Int)
+          = (val W rem : Int) + (val W rhs : Int) := by
+        have := congrArg (fun x : Nat => (x : Int)) d1
+        push_cast at this ⊢; linarith
+      have e2 : (val W q' : Int) + 1 = (val W q : Int) + ((2 ^ (W * m) : Nat) : Int) * (bw : Int) := by
+        have := congrArg (fun x : Nat => (x : Int)) o1
+        push_cast at this ⊢; linarith
+      have hrl : (val W rem : Int) < ((2 ^ (W * rhs.length) : Nat) : Int) := by
+        have h := val_lt W rem hw; rw [hl] at h; exact_mod_cast h
+      have hPpos : (0 : Int) < ((2 ^ (W * rhs.length) : Nat) : Int) := by
+        exact_mod_cast Nat.two_pow_pos (W * rhs.length)
+      have hfc : ((f + 1 : Nat) : Int) = (f : Int) + 1 := by push_cast; ring
+      rw [hfc] at hge
+      have e2b : ((val W q' : Int) + 1) * (val W rhs : Int)
+          = ((val W q : Int) + ((2 ^ (W * m) : Nat) : Int) * (bw : Int)) * (val W rhs : Int) := by rw [e2]
+      have hroP : ro * ((2 ^ (W * rhs.length) : Nat) : Int) ≤ -1 * ((2 ^ (W * rhs.length) : Nat) : Int) :=
+        Int.mul_le_mul_of_nonneg_right (by omega) (Int.le_of_lt hPpos)
+      obtain ⟨rem3, q3, qo3, e, r1, r2, r3, r4, r5, r6⟩ :=
+        ih rem' q' (ro + (c : Int)) (qo - (bw : Int)) d2 d3 o2 o3
+          (by generalize ((2 ^ (W * m) : Nat) : Int) = Pm at *
+              generalize ((2 ^ (W * rhs.length) : Nat) : Int) = Pn at *
+              linarith [e2b, e1, heq])
+          (by generalize ((2 ^ (W * rhs.length) : Nat) : Int) = Pn at *
+              linarith [e1, hroP, hrl])
+          (by generalize ((2 ^ (W * rhs.length) : Nat) : Int) = Pn at *
+              linarith [e1, hge])
+      refine ⟨rem3, q3, qo3, ?_, r1, r2, r3, r4, r5, r6⟩
+      simp only [bzFix, hneg, if_true, had, hso, e]
+    · have hge0 : 0 ≤ (val W rem : Int) + ro * ((2 ^ (W * rhs.length) : Nat) : Int) := by
+        have hro : 0 ≤ ro := Int.not_lt.mp hneg
+        have := Int.mul_nonneg hro (Int.natCast_nonneg (2 ^ (W * rhs.length)))
+        have := Int.natCast_nonneg (val W rem)
+        omega
+      have hro : ro = 0 := stop rem q ro qo hl hw hlt hge0
+      subst hro
+      refine ⟨rem, q, qo, by simp [bzFix], hl, hw, hql, hqw, ?_, by simpa using heq⟩
+      have : (val W rem : Int) < (val W rhs : Int) := by simpa using hlt
+      exact_mod_cast this
+
+theorem pow_add_len (W a b : Nat) : 2 ^ (W * (a + b)) = 2 ^ (W * a) * 2 ^ (W * b) := by
+  rw [← Nat.pow_add]; congr 1; ring
+
+/-- composition step shared by `same_len` and the outer loop: divide the high part first, then
+    the low part together with the high part's remainder -/
+theorem bz_compose (W : Nat) (lhs rhs out1 out2 : List Nat) (o oLo k : Nat)
+    (hn : 1 ≤ rhs.length) (hk : k + rhs.length ≤ lhs.length) (hl : IsWords W lhs)
+    -- first division: lhs.drop k by rhs
+    (h1l : out1.length = lhs.length - k) (h1w : IsWords W out1)
+    (h1r : val W (out1.take rhs.length) < val W rhs)
+    (h1e : (val W (out1.drop rhs.length) + o * 2 ^ (W * (lhs.length - k - rhs.length))) * val W rhs
+      + val W (out1.take rhs.length) = val W (lhs.drop k))
+    -- second division: (lhs.take k ++ out1.take n) by rhs
+    (h2l : out2.length = k + rhs.length) (h2w : IsWords W out2)
+    (h2r : val W (out2.take rhs.length) < val W rhs)
+    (h2e : (val W (out2.drop rhs.length) + oLo * 2 ^ (W * k)) * val W rhs
+      + val W (out2.take rhs.length) = val W (lhs.take k ++ out1.take rhs.length)) :
+    oLo = 0 ∧ (out2 ++ out1.drop rhs.length).length = lhs.length ∧
+    IsWords W (out2 ++ out1.drop rhs.length) ∧
+    val W ((out2 ++ out1.drop rhs.length).take rhs.length) < val W rhs ∧
+    (val W ((out2 ++ out1.drop rhs.length).drop rhs.length)
+        + o * 2 ^ (W * (lhs.length - rhs.length))) * val W rhs
+      + val W ((out2 ++ out1.drop rhs.length).take rhs.length) = val W lhs := by
+  have hkl : (lhs.take k).length = k := by rw [List.length_take]; omega
+  have hx : val W (lhs.take k ++ out1.take rhs.length)
+      = val W (lhs.take k) + 2 ^ (W * k) * val W (out1.take rhs.length) := by
+    rw [val_append, hkl]
+  have hlow : val W (lhs.take k) < 2 ^ (W * k) := by
+    have := val_lt W _ (hl.take k); rwa [hkl] at this
+  have hv := take_drop_val W lhs k (by omega)
+  rw [hx] at h2e
+  have hPk := Nat.two_pow_pos (W * k)
+  -- no carry from the low division
+  have ho : oLo = 0 := by
+    rcases Nat.eq_zero_or_pos oLo with h | h
+    · exact h
+    · exfalso
+      have h3 : 2 ^ (W * k) * (val W (out1.take rhs.length) + 1) ≤ 2 ^ (W * k) * val W rhs :=
+        Nat.mul_le_mul_left _ h1r
+      have h4 : 1 * 2 ^ (W * k) * val W rhs ≤ oLo * 2 ^ (W * k) * val W rhs :=
+        Nat.mul_le_mul_right _ (Nat.mul_le_mul_right _ h)
+      generalize val W (out2.drop rhs.length) = Q2 at *
+      generalize val W (out2.take rhs.length) = R2 at *
+      generalize val W (out1.take rhs.length) = R1 at *
+      generalize val W (lhs.take k) = L at *
+      generalize 2 ^ (W * k) = Pk at *
+      nlinarith [Nat.zero_le (Q2 * val W rhs)]
+  subst ho
+  have ht : (out2 ++ out1.drop rhs.length).take rhs.length = out2.take rhs.length :=
+    List.take_append_of_le_length (by omega)
+  have hd : (out2 ++ out1.drop rhs.length).drop rhs.length = out2.drop rhs.length ++ out1.drop rhs.length :=
+    List.drop_append_of_le_length (by omega)
+  have hdl : (out2.drop rhs.length).length = k := by simp only [List.length_drop]; omega
+  refine ⟨rfl, by rw [List.length_append, h2l, List.length_drop, h1l]; omega,
+    IsWords.append h2w (h1w.drop _), by rw [ht]; exact h2r, ?_⟩
+  rw [ht, hd, val_append, hdl, hv]
+  have hP : 2 ^ (W * (lhs.length - rhs.length)) = 2 ^ (W * k) * 2 ^ (W * (lhs.length - k - rhs.length)) := by
+    rw [← pow_add_len]; congr 2; omega
+  rw [hP, ← h1e]
+  generalize val W (out2.drop rhs.length) = Q2 at *
+  generalize val W (out2.take rhs.length) = R2 at *
+  generalize val W (out1.take rhs.length) = R1 at *
+  generalize val W (out1.drop rhs.length) = Q1 at *
+  generalize val W (lhs.take k) = L at *
+  generalize 2 ^ (W * k) = Pk at *
+  generalize 2 ^ (W * (lhs.length - k - rhs.length)) = Pj at *
+  simp only [Nat.zero_mul, Nat.add_zero] at h2e
+  linarith [h2e]
+
+theorem bz_rem_lt (Alo Pk remhi rlo rhi : Nat) (h1 : Alo < Pk) (h2 : remhi < rhi) :
+    Alo + Pk * remhi < rlo + Pk * rhi := by
+  have h3 : Pk * (remhi + 1) ≤ Pk * rhi := Nat.mul_le_mul_left _ h2
+  nlinarith
+
+theorem bz_inv (Qe b a Alo Pk ahi rlo rhi remhi vrem T : Int) (hT : T = vrem - Qe * rlo)
+    (ha : a = Alo + Pk * ahi) (hb : b = rlo + Pk * rhi) (hr : vrem = Alo + Pk * remhi)
+    (h5 : Qe * rhi + remhi = ahi) : Qe * b + T = a := by
+  subst hT ha hb hr h5; ring
+
+theorem bz_state1 (vt1 vt1d vt vrem1 ro1 bw Pm Pk Pn vrem vq rlo : Int)
+    (s3 : vrem1 + ro1 * Pn = vrem - vq * rlo) (e5 : vrem1 = vt1 + Pm * vt1d)
+    (e4 : vt + rlo = vt1d + Pk * bw) (e6 : Pn = Pm * Pk) :
+    vt1 + Pm * vt + (ro1 - bw) * Pn = vrem - (vq + 1 * Pm) * rlo := by
+  subst e6 e5
+  have e4' : Pm * (vt + rlo) = Pm * (vt1d + Pk * bw) := by rw [e4]
+  linarith [s3, e4']
+
+theorem bz_qo_bounds (vq qo3 Pm Pn b vr va : Int) (hPm : 0 < Pm) (hb : 0 < b)
+    (hq0 : 0 ≤ vq) (hq : vq < Pm) (hr0 : 0 ≤ vr) (hr : vr < b) (ha0 : 0 ≤ va) (ha : va < Pm * Pn)
+    (hn : Pn ≤ 2 * b) (heq : (vq + qo3 * Pm) * b + vr = va) : 0 ≤ qo3 ∧ qo3 ≤ 1 := by
+  constructor
+  · by_contra hcon
+    have h1 : qo3 ≤ -1 := by omega
+    have h2 : qo3 * Pm ≤ -1 * Pm := Int.mul_le_mul_of_nonneg_right h1 (by omega)
+    have h3 : (vq + qo3 * Pm) * b ≤ -1 * b := Int.mul_le_mul_of_nonneg_right (by omega) (by omega)
+    omega
+  · by_contra hcon
+    have h1 : 2 ≤ qo3 := by omega
+    have h2 : 2 * Pm ≤ qo3 * Pm := Int.mul_le_mul_of_nonneg_right h1 (by omega)
+    have h3 : 2 * Pm * b ≤ (vq + qo3 * Pm) * b := Int.mul_le_mul_of_nonneg_right (by omega) (by omega)
+    have h4 : Pm * Pn ≤ Pm * (2 * b) := Int.mul_le_mul_of_nonneg_left hn (by omega)
+    nlinarith
+
+theorem bz_T_ge (vq qo Pm Pk Pn rlo b : Nat) (hq : vq < Pm) (hqo : qo ≤ 1) (hr : rlo < Pk)
+    (hPn : Pn = Pm * Pk) (hn : Pn ≤ 2 * b) : (vq + qo * Pm) * rlo ≤ 4 * b := by
+  have h1 : (vq + qo * Pm) * rlo ≤ (2 * Pm) * Pk := by
+    apply Nat.mul_le_mul
+    · have : qo * Pm ≤ 1 * Pm := Nat.mul_le_mul_right _ hqo
+      omega
+    · omega
+  have h2 : (2 * Pm) * Pk ≤ 4 * b := by
+    rw [Nat.mul_assoc, ← hPn]; omega
+  exact Nat.le_trans h1 h2
+
+/-- Burnikel–Ziegler, both mutually recursive halves, by induction on the recursion fuel
+    (relative to the contract of `add_signed_mul`) -/
+theorem bz_mutual (W : Nat) (hW : 1 ≤ W) : ∀ fuel : Nat,
+    (∀ lhs rhs : List Nat, 2 * rhs.length + 1 ≤ fuel → thresholdSimple < rhs.length →
+      lhs.length = 2 * rhs.length → IsWords W lhs → IsWords W rhs →
+      2 ^ (W * rhs.length) ≤ 2 * val W rhs →
+      InPlaceOk W lhs rhs (bzSameLen W (highestDword W rhs) fuel lhs rhs)) ∧
+    (∀ lhs rhs : List Nat, 2 * rhs.length ≤ fuel → 2 ≤ rhs.length → rhs.length ≤ lhs.length →
+      lhs.length - rhs.length < rhs.length → IsWords W lhs → IsWords W rhs →
+      2 ^ (W * rhs.length) ≤ 2 * val W rhs →
+      InPlaceOk W lhs rhs (bzSmallQuotient W (highestDword W rhs) fuel lhs rhs)) := by
+  have hts : thresholdSimple = 32 := rfl
+  intro fuel
+  induction fuel with
+  | zero =>
+    exact ⟨fun _ _ h => by omega, fun _ rhs h h2 => by omega⟩
+  | succ fuel ih =>
+    obtain ⟨ihS, ihQ⟩ := ih
+    constructor
+    · -- ---------------------------------------------------------------- same_len
+      intro lhs rhs hf hn hlen hl hr hnorm
+      rw [hts] at hn
+      have hnLo : 1 ≤ rhs.length / 2 := by omega
+      have hnLo' : rhs.length / 2 < rhs.length := by omega
+      -- high part
+      have hdl : (lhs.drop (rhs.length / 2)).length = lhs.length - rhs.length / 2 := List.length_drop
+      obtain ⟨out1, o, e1, a1, a2, a3, a4, a5⟩ := ihQ (lhs.drop (rhs.length / 2)) rhs (by omega)
+        (by omega) (by rw [hdl]; omega) (by rw [hdl]; omega) (hl.drop _) hr hnorm
+      rw [hdl] at a1 a5
+      -- low part
+      have htl : (lhs.take (rhs.length / 2)).length = rhs.length / 2 := by
+        rw [List.length_take]; omega
+      have htk : (lhs.take (rhs.length / 2) ++ out1).take (rhs.length + rhs.length / 2)
+          = lhs.take (rhs.length / 2) ++ out1.take rhs.length := by
+        have : rhs.length + rhs.length / 2 = (lhs.take (rhs.length / 2)).length + rhs.length := by
+          rw [htl]; omega
+        rw [this, List.take_length_add_append]
+      have hdk : (lhs.take (rhs.length / 2) ++ out1).drop (rhs.length + rhs.length / 2)
+          = out1.drop rhs.length := by
+        have : rhs.length + rhs.length / 2 = (lhs.take (rhs.length / 2)).length + rhs.length := by
+          rw [htl]; omega
+        rw [this, List.drop_length_add_append]
+      have hl2w : IsWords W (lhs.take (rhs.length / 2) ++ out1.take rhs.length) :=
+        IsWords.append (hl.take _) (a2.take _)
+      have hl2l : (lhs.take (rhs.length / 2) ++ out1.take rhs.length).length
+          = rhs.length / 2 + rhs.length := by
+        rw [List.length_append, htl, List.length_take]; omega
+      obtain ⟨out2, oLo, e2, b1, b2, b3, b4, b5⟩ :=
+        ihQ (lhs.take (rhs.length / 2) ++ out1.take rhs.length) rhs (by omega) (by omega)
+          (by rw [hl2l]; omega) (by rw [hl2l]; omega) hl2w hr hnorm
+      rw [hl2l] at b1 b5
+      have hsub : rhs.length / 2 + rhs.length - rhs.length = rhs.length / 2 := by omega
+      rw [hsub] at b5
+      obtain ⟨c0, c1, c2, c3, c4⟩ := bz_compose W lhs rhs out1 out2 o oLo (rhs.length / 2) (by omega)
+        (by omega) hl a1 a2 a4 a5 b1 b2 b4 b5
+      subst c0
+      refine ⟨out2 ++ out1.drop rhs.length, o, ?_, c1, c2, a3, c3, c4⟩
+      have hcond : rhs.length > thresholdSimple ∧ lhs.length = 2 * rhs.length := ⟨by omega, hlen⟩
+      simp only [bzSameLen]
+      rw [if_neg (not_not.mpr hcond)]
+      simp only [bind, Except.bind, e1, htk, e2, hdk, ne_eq, not_true_eq_false, if_false, pure,
+        Except.pure]
+    · -- ---------------------------------------------------------------- small_quotient
+      intro lhs rhs hf hn hm hmn hl hr hnorm
+      by_cases hsm : lhs.length - rhs.length ≤ thresholdSimple
+      · have := simple_inPlaceOk W hW lhs rhs hn hm hl hr hnorm
+        have hc1 : rhs.length ≥ 2 ∧ lhs.length ≥ rhs.length := ⟨hn, hm⟩
+        simp only [bzSmallQuotient, hc1, not_true_eq_false, if_false, hmn, hsm, if_true]
+        exact this
+      · rw [hts] at hsm
+        -- notation: n = rhs.length, m = lhs.length - n, k = n - m
+        have hk1 : rhs.length - (lhs.length - rhs.length) + (lhs.length - rhs.length) = rhs.length := by omega
+        generalize hmdef : lhs.length - rhs.length = m at *
+        generalize hkdef : rhs.length - m = k at *
+        have hlenl : lhs.length = rhs.length + m := by omega
+        have hkm : k + m = rhs.length := by omega
+        -- divisor split
+        have hrd : (rhs.drop k).length = m := by rw [List.length_drop]; omega
+        have hrt : (rhs.take k).length = k := by rw [List.length_take]; omega
+        have hvr := take_drop_val W rhs k (by omega)
+        have hrlo : val W (rhs.take k) < 2 ^ (W * k) := by
+          have := val_lt W _ (hr.take k); rwa [hrt] at this
+        have hnd := norm_drop W hW rhs k (by omega) hr hnorm
+        rw [hrd] at hnd
+        have hdt := highestDword_drop W rhs k (by omega)
+        -- recursive 2m / m division of the top words
+        have hld : (lhs.drop k).length = 2 * m := by rw [List.length_drop]; omega
+        obtain ⟨top', qo, e1, a1, a2, a3, a4, a5⟩ := ihS (lhs.drop k) (rhs.drop k)
+          (by rw [hrd]; omega) (by rw [hrd, hts]; omega) (by rw [hld, hrd]) (hl.drop _) (hr.drop _)
+          (by rw [hrd]; exact hnd)
+        rw [hdt] at e1
+        rw [hld] at a1
+        rw [hrd] at a4 a5
+        rw [hld] at a5
+        have h2mm : 2 * m - m = m := by omega
+        rw [h2mm] at a5
+        -- the buffer after the recursive call
+        have hltk : (lhs.take k).length = k := by rw [List.length_take]; omega
+        have hrem : (lhs.take k ++ top').take rhs.length = lhs.take k ++ top'.take m := by
+          have : rhs.length = (lhs.take k).length + m := by rw [hltk]; omega
+          rw [this, List.take_length_add_append]
+        have hq : (lhs.take k ++ top').drop rhs.length = top'.drop m := by
+          have : rhs.length = (lhs.take k).length + m := by rw [hltk]; omega
+          rw [this, List.drop_length_add_append]
+        have hreml : (lhs.take k ++ top'.take m).length = rhs.length := by
+          rw [List.length_append, hltk, List.length_take]; omega
+        have hremw : IsWords W (lhs.take k ++ top'.take m) := IsWords.append (hl.take _) (a2.take _)
+        have hql : (top'.drop m).length = m := by rw [List.length_drop]; omega
+        have hqw : IsWords W (top'.drop m) := a2.drop _
+        have hvrem : val W (lhs.take k ++ top'.take m)
+            = val W (lhs.take k) + 2 ^ (W * k) * val W (top'.take m) := by rw [val_append, hltk]
+        have hAlo : val W (lhs.take k) < 2 ^ (W * k) := by
+          have := val_lt W _ (hl.take k); rwa [hltk] at this
+        have hvl := take_drop_val W lhs k (by omega)
+        -- rem -= q * rhs_lo
+        have sm := subMulContract_spec W (lhs.take k ++ top'.take m) (top'.drop m) (rhs.take k)
+        generalize hsm1 : subMulContract W (lhs.take k ++ top'.take m) (top'.drop m) (rhs.take k) = p1 at sm
+        obtain ⟨rem1, ro1⟩ := p1
+        simp only at sm
+        obtain ⟨s1, s2, s3⟩ := sm
+        rw [hreml] at s1 s3
+        -- optional subtraction of rhs_lo * B^m when the recursive quotient overflowed
+        have hPn : 2 ^ (W * rhs.length) = 2 ^ (W * m) * 2 ^ (W * k) := by
+          rw [← pow_add_len]; congr 2; omega
+        have h1d : (rem1.drop m).length = (rhs.take k).length := by
+          rw [List.length_drop, hrt, s1]; omega
+        have ss := subSameLen_spec W (rem1.drop m) (rhs.take k) 0 (s2.drop _) (hr.take _) h1d (by omega)
+        generalize hss : subSameLen W (rem1.drop m) (rhs.take k) 0 = p2 at ss
+        obtain ⟨t, bw⟩ := p2
+        simp only at ss
+        obtain ⟨t1, t2, t3, t4⟩ := ss
+        have hv1 := take_drop_val W rem1 m (by omega)
+        have h1t : (rem1.take m).length = m := by rw [List.length_take]; omega
+        -- the state entering the correction loop
+        have hstate : ∃ rem2 ro2, (if qo ≠ 0 then (rem1.take m ++ t, ro1 - (bw : Int)) else (rem1, ro1))
+              = (rem2, ro2) ∧ rem2.length = rhs.length ∧ IsWords W rem2 ∧
+            (val W rem2 : Int) + ro2 * ((2 ^ (W * rhs.length) : Nat) : Int)
+              = (val W (lhs.take k ++ top'.take m) : Int)
+                - ((val W (top'.drop m) : Int) + (qo : Int) * ((2 ^ (W * m) : Nat) : Int))
+                  * (val W (rhs.take k) : Int) := by
+          by_cases hq0 : qo = 0
+          · subst hq0
+            refine ⟨rem1, ro1, by simp, s1, s2, ?_⟩
+            rw [s3]; push_cast; ring
+          · have hq1 : qo = 1 := by omega
+            subst hq1
+            refine ⟨rem1.take m ++ t, ro1 - (bw : Int), by simp, ?_, IsWords.append (s2.take _) t3, ?_⟩
+            · rw [List.length_append, h1t, t2, List.length_drop, s1]; omega
+            · have e3 : (val W (rem1.take m ++ t) : Int)
+                  = (val W (rem1.take m) : Int) + ((2 ^ (W * m) : Nat) : Int) * (val W t : Int) := by
+                rw [val_append, h1t]; push_cast; ring
+              have e4 : (val W t : Int) + (val W (rhs.take k) : Int)
+                  = (val W (rem1.drop m) : Int) + ((2 ^ (W * k) : Nat) : Int) * (bw : Int) := by
+                have := congrArg (fun x : Nat => (x : Int)) t1
+                rw [h1d, hrt] at this
+                push_cast at this ⊢; linarith
+              have e5 : (val W rem1 : Int)
+                  = (val W (rem1.take m) : Int) + ((2 ^ (W * m) : Nat) : Int) * (val W (rem1.drop m) : Int) := by
+                have := congrArg (fun x : Nat => (x : Int)) hv1
+                push_cast at this ⊢; linarith
+              have e6 : ((2 ^ (W * rhs.length) : Nat) : Int)
+                  = ((2 ^ (W * m) : Nat) : Int) * ((2 ^ (W * k) : Nat) : Int) := by
+                rw [hPn]; push_cast; ring
+              rw [e3]
+              exact bz_state1 _ _ _ _ _ _ _ _ _ _ _ _ s3 e5 e4 e6
+        obtain ⟨rem2, ro2, hst, r2l, r2w, r2e⟩ := hstate
+        -- value of lhs in terms of the estimated quotient
+        have hbI : (val W rhs : Int)
+            = (val W (rhs.take k) : Int) + ((2 ^ (W * k) : Nat) : Int) * (val W (rhs.drop k) : Int) := by
+          have := congrArg (fun x : Nat => (x : Int)) hvr
+          push_cast at this ⊢; linarith
+        have haI : (val W lhs : Int)
+            = (val W (lhs.take k) : Int) + ((2 ^ (W * k) : Nat) : Int) * (val W (lhs.drop k) : Int) := by
+          have := congrArg (fun x : Nat => (x : Int)) hvl
+          push_cast at this ⊢; linarith
+        have ha5I : ((val W (top'.drop m) : Int) + (qo : Int) * ((2 ^ (W * m) : Nat) : Int))
+              * (val W (rhs.drop k) : Int) + (val W (top'.take m) : Int) = (val W (lhs.drop k) : Int) := by
+          have := congrArg (fun x : Nat => (x : Int)) a5
+          push_cast at this ⊢; linarith
+        have hvremI : (val W (lhs.take k ++ top'.take m) : Int)
+            = (val W (lhs.take k) : Int) + ((2 ^ (W * k) : Nat) : Int) * (val W (top'.take m) : Int) := by
+          have := congrArg (fun x : Nat => (x : Int)) hvrem
+          push_cast at this ⊢; linarith
+        -- invariant of the loop: Qe * b + T = a,  T < b,  T + 4b ≥ 0
+        have hinv : ((val W (top'.drop m) : Int) + (qo : Int) * ((2 ^ (W * m) : Nat) : Int)) * (val W rhs : Int)
+            + ((val W rem2 : Int) + ro2 * ((2 ^ (W * rhs.length) : Nat) : Int)) = (val W lhs : Int) :=
+          bz_inv _ _ _ _ _ _ _ _ _ _ _ r2e haI hbI hvremI ha5I
+        have hremlt : val W (lhs.take k ++ top'.take m) < val W rhs := by
+          rw [hvrem, hvr]; exact bz_rem_lt _ _ _ _ _ hAlo a4
+        have hTlt : (val W rem2 : Int) + ro2 * ((2 ^ (W * rhs.length) : Nat) : Int) < (val W rhs : Int) := by
+          rw [r2e]
+          have h1 : (val W (lhs.take k ++ top'.take m) : Int) < (val W rhs : Int) := by exact_mod_cast hremlt
+          have h2 : (0 : Int) ≤ ((val W (top'.drop m) : Int) + (qo : Int) * ((2 ^ (W * m) : Nat) : Int))
+              * (val W (rhs.take k) : Int) := by positivity
+          linarith
+        have hqlt : val W (top'.drop m) < 2 ^ (W * m) := by
+          have := val_lt W _ hqw; rwa [hql] at this
+        have hTge : 0 ≤ (val W rem2 : Int) + ro2 * ((2 ^ (W * rhs.length) : Nat) : Int)
+            + ((4 : Nat) : Int) * (val W rhs : Int) := by
+          rw [r2e]
+          have h3 : (((val W (top'.drop m) + qo * 2 ^ (W * m)) * val W (rhs.take k) : Nat) : Int)
+              ≤ ((4 * val W rhs : Nat) : Int) := by
+            exact_mod_cast bz_T_ge _ _ _ _ _ _ _ hqlt a3 hrlo hPn hnorm
+          push_cast at h3 ⊢
+          have h4 : (0 : Int) ≤ (val W (lhs.take k ++ top'.take m) : Int) := Int.natCast_nonneg _
+          linarith
+        obtain ⟨rem3, q3, qo3, e3, f1, f2, f3, f4, f5, f6⟩ :=
+          bzFix_spec W rhs hr (val W lhs : Int) m 4 rem2 (top'.drop m) ro2 (qo : Int) r2l r2w hql hqw
+            hinv hTlt hTge
+        -- the final quotient carry is 0 or 1
+        have hllt : val W lhs < 2 ^ (W * m) * 2 ^ (W * rhs.length) := by
+          have := val_lt W lhs hl
+          rwa [hlenl, Nat.add_comm, pow_add_len] at this
+        have hq3lt : val W q3 < 2 ^ (W * m) := by
+          have := val_lt W q3 f4; rwa [f3] at this
+        have hqo3 : 0 ≤ qo3 ∧ qo3 ≤ 1 := by
+          have hPm : (0 : Int) < ((2 ^ (W * m) : Nat) : Int) := by exact_mod_cast Nat.two_pow_pos (W * m)
+          have hbpos : (0 : Int) < (val W rhs : Int) := by
+            have : 0 < val W rhs := by
+              have := Nat.two_pow_pos (W * rhs.length); omega
+            exact_mod_cast this
+          have hq3I : (val W q3 : Int) < ((2 ^ (W * m) : Nat) : Int) := by exact_mod_cast hq3lt
+          have hr3I : (val W rem3 : Int) < (val W rhs : Int) := by exact_mod_cast f5
+          have haI2 : (val W lhs : Int) < ((2 ^ (W * m) : Nat) : Int) * ((2 ^ (W * rhs.length) : Nat) : Int) := by
+            exact_mod_cast hllt
+          have hnI : ((2 ^ (W * rhs.length) : Nat) : Int) ≤ 2 * (val W rhs : Int) := by exact_mod_cast hnorm
+          exact bz_qo_bounds _ _ _ _ _ _ _ hPm hbpos (Int.natCast_nonneg _) hq3I (Int.natCast_nonneg _) hr3I
+            (Int.natCast_nonneg _) haI2 hnI f6
+        obtain ⟨g1, g2⟩ := hqo3
+        -- assemble
+        have hc1 : rhs.length ≥ 2 ∧ lhs.length ≥ rhs.length := ⟨hn, hm⟩
+        have hnsm : ¬ m ≤ thresholdSimple := by rw [hts]; exact hsm
+        have hok : ¬ ((0 : Int) ≠ 0 ∨ ¬ (0 ≤ qo3 ∧ qo3 ≤ 1)) := by simp [g1, g2]
+        have hcNat : ∃ c : Nat, (if qo3 ≠ 0 then 1 else 0) = c ∧ (c : Int) = qo3 ∧ c ≤ 1 := by
+          by_cases h0 : qo3 = 0
+          · exact ⟨0, by simp [h0], by simp [h0], by omega⟩
+          · have : qo3 = 1 := by omega
+            exact ⟨1, by simp [this], by simp [this], by omega⟩
+        obtain ⟨c, hc, hcI, hcle⟩ := hcNat
+        refine ⟨rem3 ++ q3, c, ?_, by rw [List.length_append, f1, f3]; omega, IsWords.append f2 f4, hcle,
+          ?_, ?_⟩
+        · simp only [bzSmallQuotient]
+          rw [if_neg (not_not.mpr hc1)]
+          simp only [hmdef, hkdef]
+          rw [if_neg (not_not.mpr hmn), if_neg hnsm]
+          simp only [bind, Except.bind, e1, hrem, hq, hsm1, hss, hst, e3, hok, if_false, pure, Except.pure, hc]
+        · rw [List.take_left' f1]; exact f5
+        · rw [List.take_left' f1, List.drop_left' f1, hmdef]
+          have : ((val W q3 : Int) + (c : Int) * ((2 ^ (W * m) : Nat) : Int)) * (val W rhs : Int)
+              + (val W rem3 : Int) = (val W lhs : Int) := by rw [hcI]; exact f6
+          exact_mod_cast this
+
+/-- the block loop of `divide_conquer::div_rem_in_place` -/
+theorem bzOuter_spec (W : Nat) (hW : 1 ≤ W) (rhs : List Nat) (hn : thresholdSimple < rhs.length)
+    (hr : IsWords W rhs) (hnorm : 2 ^ (W * rhs.length) ≤ 2 * val W rhs) :
+    ∀ (t : Nat) (lhs : List Nat), lhs.length / rhs.length = t + 1 → IsWords W lhs →
+      (lhs.length = rhs.length → val W lhs < val W rhs) →
+      InPlaceOk W lhs rhs (bzOuter W (highestDword W rhs) rhs (2 * rhs.length + 1) t lhs) := by
+  have hts : thresholdSimple = 32 := rfl
+  rw [hts] at hn
+  have hnpos : 0 < rhs.length := by omega
+  obtain ⟨bzS, bzQ⟩ := bz_mutual W hW (2 * rhs.length + 1)
+  intro t
+  induction t with
+  | zero =>
+    intro lhs hdiv hl hsmall
+    have hdm := Nat.div_add_mod lhs.length rhs.length
+    have hml := Nat.mod_lt lhs.length hnpos
+    rw [hdiv] at hdm
+    by_cases hgt : lhs.length > rhs.length
+    · have := bzQ lhs rhs (by omega) (by omega) (by omega) (by omega) hl hr hnorm
+      simp only [bzOuter, hgt, if_true]
+      exact this
+    · have heq : lhs.length = rhs.length := by omega
+      refine ⟨lhs, 0, by simp only [bzOuter, hgt, if_false], rfl, hl, by omega, ?_, ?_⟩
+      · rw [List.take_of_length_le (by omega)]; exact hsmall heq
+      · rw [List.take_of_length_le (by omega), List.drop_of_length_le (by omega)]; simp
+  | succ t ih =>
+    intro lhs hdiv hl _
+    have hdm := Nat.div_add_mod lhs.length rhs.length
+    rw [hdiv] at hdm
+    have hlen2 : 2 * rhs.length ≤ lhs.length := by
+      have : rhs.length * (t + 1 + 1) = rhs.length * t + 2 * rhs.length := by ring
+      omega
+    -- the top 2n-word block
+    have hwl : (lhs.drop (lhs.length - 2 * rhs.length)).length = 2 * rhs.length := by
+      rw [List.length_drop]; omega
+    obtain ⟨win', o, e1, a1, a2, a3, a4, a5⟩ := bzS (lhs.drop (lhs.length - 2 * rhs.length)) rhs
+      (by omega) (by rw [hts]; omega) hwl (hl.drop _) hr hnorm
+    rw [hwl] at a1 a5
+    have hkl : (lhs.take (lhs.length - 2 * rhs.length)).length = lhs.length - 2 * rhs.length := by
+      rw [List.length_take]; omega
+    have hpre : (lhs.take (lhs.length - 2 * rhs.length) ++ win').take (lhs.length - rhs.length)
+        = lhs.take (lhs.length - 2 * rhs.length) ++ win'.take rhs.length := by
+      have : lhs.length - rhs.length = (lhs.take (lhs.length - 2 * rhs.length)).length + rhs.length := by
+        rw [hkl]; omega
+      rw [this, List.take_length_add_append]
+    have hpost : (lhs.take (lhs.length - 2 * rhs.length) ++ win').drop (lhs.length - rhs.length)
+        = win'.drop rhs.length := by
+      have : lhs.length - rhs.length = (lhs.take (lhs.length - 2 * rhs.length)).length + rhs.length := by
+        rw [hkl]; omega
+      rw [this, List.drop_length_add_append]
+    have hprel : (lhs.take (lhs.length - 2 * rhs.length) ++ win'.take rhs.length).length
+        = lhs.length - 2 * rhs.length + rhs.length := by
+      rw [List.length_append, hkl, List.length_take]; omega
+    have hprew : IsWords W (lhs.take (lhs.length - 2 * rhs.length) ++ win'.take rhs.length) :=
+      IsWords.append (hl.take _) (a2.take _)
+    -- the remaining prefix
+    have hdiv' : (lhs.take (lhs.length - 2 * rhs.length) ++ win'.take rhs.length).length / rhs.length
+        = t + 1 := by
+      rw [hprel]
+      have h1 : lhs.length = (lhs.length - 2 * rhs.length + rhs.length) + rhs.length := by omega
+      have h2 := Nat.add_div_right (lhs.length - 2 * rhs.length + rhs.length) hnpos
+      rw [← h1, hdiv] at h2
+      omega
+    have hsmall' : (lhs.take (lhs.length - 2 * rhs.length) ++ win'.take rhs.length).length = rhs.length →
+        val W (lhs.take (lhs.length - 2 * rhs.length) ++ win'.take rhs.length) < val W rhs := by
+      intro h
+      rw [hprel] at h
+      have h0 : lhs.length - 2 * rhs.length = 0 := by omega
+      rw [h0]; simpa using a4
+    obtain ⟨rest, o2, e2, b1, b2, b3, b4, b5⟩ := ih _ hdiv' hprew hsmall'
+    rw [hprel] at b1 b5
+    have hsub : lhs.length - 2 * rhs.length + rhs.length - rhs.length = lhs.length - 2 * rhs.length := by
+      omega
+    rw [hsub] at b5
+    have h2nn : 2 * rhs.length - rhs.length = rhs.length := by omega
+    rw [h2nn] at a5
+    have hexp : lhs.length - (lhs.length - 2 * rhs.length) - rhs.length = rhs.length := by omega
+    obtain ⟨c0, c1, c2, c3, c4⟩ := bz_compose W lhs rhs win' rest o o2 (lhs.length - 2 * rhs.length)
+      (by omega) (by omega) hl (by rw [a1]; omega) a2 a4 (by rw [hexp]; exact a5) b1 b2 b4 b5
+    subst c0
+    refine ⟨rest ++ win'.drop rhs.length, o, ?_, c1, c2, a3, c3, c4⟩
+    simp only [bzOuter, bind, Except.bind, e1, hpre, e2, hpost, ne_eq, not_true_eq_false, if_false, pure,
+      Except.pure]
+
+/-- `divide_conquer::div_rem_in_place` (Burnikel–Ziegler) meets the in-place division contract,
+    relative to the contract of `add_signed_mul` -/
+theorem bzDivRemInPlace_spec (W : Nat) (hW : 1 ≤ W) (lhs rhs : List Nat)
+    (hn : thresholdSimple < rhs.length) (hm : rhs.length + thresholdSimple < lhs.length)
+    (hl : IsWords W lhs) (hr : IsWords W rhs) (hnorm : 2 ^ (W * rhs.length) ≤ 2 * val W rhs) :
+    InPlaceOk W lhs rhs (bzDivRemInPlace W lhs rhs (highestDword W rhs)) := by
+  have hts : thresholdSimple = 32 := rfl
+  have hnpos : 0 < rhs.length := by omega
+  have hdpos : 0 < lhs.length / rhs.length := Nat.div_pos (by omega) hnpos
+  have hcond : lhs.length > rhs.length + thresholdSimple ∧ rhs.length > thresholdSimple := ⟨hm, hn⟩
+  simp only [bzDivRemInPlace]
+  rw [if_neg (not_not.mpr hcond)]
+  exact bzOuter_spec W hW rhs hn hr hnorm (lhs.length / rhs.length - 1) lhs (by omega) hl (by omega)
+
 /-- `div::div_rem_in_place` (either algorithm): lhs becomes [lhs % rhs, lhs / rhs] + carry -/
 theorem divRemInPlace_spec (W : Nat) (hW : 1 ≤ W) (lhs rhs : List Nat) (hn : 2 ≤ rhs.length)
     (hm : rhs.length ≤ lhs.length) (hl : IsWords W lhs) (hr : IsWords W rhs)
@@ -1331,10 +1990,9 @@ theorem divRemInPlace_spec (W : Nat) (hW : 1 ≤ W) (lhs rhs : List Nat) (hn : 2
     obtain ⟨out, c, e, o1, o2, _, o3, o4⟩ := simpleDivRemInPlace_spec W hW lhs rhs hn hm hl hr hnorm
     exact ⟨out, c, e, o1, o2, o3, o4⟩
   · rw [if_neg hs]
-    have hb : 0 < val W rhs := by
-      have := Nat.two_pow_pos (W * rhs.length); omega
-    obtain ⟨f1, f2, f3, f4⟩ := divRemInPlaceDCFrontier_spec W lhs rhs hm hr hb
-    exact ⟨_, _, rfl, f1, f2, f3, f4⟩
+    have hts : thresholdSimple = 32 := rfl
+    obtain ⟨out, c, e, o1, o2, _, o3, o4⟩ := bzDivRemInPlace_spec W hW lhs rhs (by omega) (by omega) hl hr hnorm
+    exact ⟨out, c, e, o1, o2, o3, o4⟩
 
 -- ------------------------------------------------------------------ normalize / unshifted / in-lhs
 
